@@ -957,6 +957,9 @@ impl<'a> TypeMono<'a> {
                 len: *len,
                 elem: Box::new(self.collapse_type_apps(elem)),
             },
+            Ty::TVec { elem } => Ty::TVec {
+                elem: Box::new(self.collapse_type_apps(elem)),
+            },
             Ty::TRef { elem } => Ty::TRef {
                 elem: Box::new(self.collapse_type_apps(elem)),
             },
